@@ -446,6 +446,20 @@ class Walker:
         if isinstance(s, ast.For):
             it = subst(s.iter, p.env)
             self.ev(p, "eval", s, None, it)
+            if isinstance(it, (ast.List, ast.Tuple)) and 1 <= len(it.elts) <= 8 and not s.orelse and not any(isinstance(x, ast.Starred) for x in it.elts) \
+                    and not any(isinstance(n, (ast.Break, ast.Continue, ast.Return)) for b in s.body for n in ast.walk(b)):
+                # a loop over a literal list is unrolled exactly
+                states = [(p, FALL)]
+                for elt in it.elts:
+                    nxt = []
+                    for q, st in states:
+                        if st != FALL:
+                            nxt.append((q, st))
+                            continue
+                        self.assign(q, s.target, elt, s)
+                        nxt.extend(self.block(s.body, q))
+                    states = nxt
+                return out + states
             for n in ast.walk(s.target):
                 if isinstance(n, ast.Name):
                     p.env.pop(n.id, None)
